@@ -34,6 +34,7 @@ type tokenAnalysis struct {
 	field  map[*types.Var]tokState
 	param  map[*ssa.Parameter]tokState
 	cutAt  map[ssa.Value]ssa.Instruction // where the value was last cut
+	tuple  map[ssa.Value][]tokState      // per-result state of module calls returning tuples
 	findAt map[ssa.Value]bool
 }
 
@@ -48,7 +49,7 @@ func isStringSlice(t types.Type) bool {
 }
 
 func (p *Program) tokenAnalysis() *tokenAnalysis {
-	ta := &tokenAnalysis{p: p, val: map[ssa.Value]tokState{}, field: map[*types.Var]tokState{}, param: map[*ssa.Parameter]tokState{}, cutAt: map[ssa.Value]ssa.Instruction{}}
+	ta := &tokenAnalysis{p: p, val: map[ssa.Value]tokState{}, field: map[*types.Var]tokState{}, param: map[*ssa.Parameter]tokState{}, cutAt: map[ssa.Value]ssa.Instruction{}, tuple: map[ssa.Value][]tokState{}}
 	cg := p.callGraph()
 	for iter := 0; iter < 12; iter++ {
 		changed := false
@@ -134,7 +135,11 @@ func (p *Program) tokenAnalysis() *tokenAnalysis {
 						set(v, s, nil)
 					}
 				case *ssa.Extract:
-					if s := ta.val[x.Tuple]; s > tokNone {
+					if per, ok := ta.tuple[x.Tuple]; ok {
+						if x.Index < len(per) && per[x.Index] > tokNone {
+							set(v, per[x.Index], x.Tuple.(ssa.Instruction))
+						}
+					} else if s := ta.val[x.Tuple]; s > tokNone {
 						set(v, s, ta.cutAt[x.Tuple])
 					}
 				case *ssa.Call:
@@ -180,15 +185,18 @@ func (p *Program) tokenAnalysis() *tokenAnalysis {
 									set(v, s, i)
 								}
 							} else if tup, ok := x.Type().(*types.Tuple); ok {
-								_ = tup
-								var s tokState
-								for _, r := range returnsOf(cal) {
-									for _, res := range r.Results {
-										s = joinTok(s, ta.val[res])
-									}
+								per := ta.tuple[v]
+								if per == nil {
+									per = make([]tokState, tup.Len())
+									ta.tuple[v] = per
 								}
-								if s > tokNone {
-									set(v, s, i)
+								for _, r := range returnsOf(cal) {
+									for k, res := range r.Results {
+										if k < len(per) && ta.val[res] > per[k] {
+											per[k] = ta.val[res]
+											changed = true
+										}
+									}
 								}
 							}
 						}
